@@ -51,3 +51,11 @@ def classify(c, r):
     except Exception:
         return f"{kind} {res}"
     return f"{kind} {res} lim={lim} {stream} chunk={chunk}"
+
+
+def equal(a, b):
+    """The numeric value of the resolved limit (`lim=<need>` for the symbolic limits n / n-1) is C07's subject,
+    not C06's: a harmless change of a buffer size must not alarm here. Everything else is compared exactly."""
+    import re
+    strip = lambda s: re.sub(r" lim=\d+", " lim=*", s)
+    return strip(a) == strip(b)
